@@ -95,9 +95,11 @@ func (p *WebSocketPool) Put(backend string, conn net.Conn) bool {
 		}
 		p.pools[backend] = pool
 	}
-	p.mu.Unlock()
-
+	// Take the backend's lock before giving up the map lock: a Shutdown in
+	// between would empty and drop this pool, and the connection appended
+	// afterwards would never be closed or handed out again
 	pool.mu.Lock()
+	p.mu.Unlock()
 	defer pool.mu.Unlock()
 
 	if pool.active > 0 {
